@@ -703,7 +703,7 @@ def thorough_exhaustive():
 
 def quick_stateful():
     """explored state by state: every reachable state expanded once, every transition executed"""
-    return ([("2x1+reentrant-after-write", C_2x1_RA), ("2x2", C_2x2), ("2x(1,2)-big+reentrant-mid-packet", C_2x12_R),
+    return ([("2x1+reentrant-after-write", C_2x1_RA), ("2x2", C_2x2),
              ("2x(1,2)+write-fails", C_2x12_FAIL0), ("2x(2,1)-big+write-fails-mid-packet", C_2x1_BIG_FAIL1),
              ("2x1-big+netref-finalizer+write-fails", C_2x1_BIG_FAIL2_R)]
             + [c for c in C_EVERY_LINE if c[0].split("@")[1] in ("a0b", "l0a", "p0b", "r0a")])
@@ -711,7 +711,7 @@ def quick_stateful():
 
 def thorough_stateful():
     return ([c for c in C_EVERY_LINE if c[0].split("@")[1] not in ("a0b", "l0a", "p0b", "r0a")]
-            + [("2x2-big", C_2x2_BIG), ("2x2+write-fails", C_2x2_FAIL), ("2x3", C_2x3), ("3x1", C_3x1),
+            + [("2x(1,2)-big+reentrant-mid-packet", C_2x12_R), ("2x2-big", C_2x2_BIG), ("2x2+write-fails", C_2x2_FAIL), ("2x3", C_2x3), ("3x1", C_3x1),
                ("2x(1,5)", C_2x15), ("3x(1,2,1)", C_3x121)])
 
 
@@ -945,12 +945,16 @@ def correspondence(ctx):
         exhaustive_done[name] = dict(schedules=n, complete=complete)
     ctx.log("path-exhaustive families: %s (%.1fs)" % (exhaustive_done, time.time() - t0))
     for name, conf in quick_stateful() + (thorough_stateful() if thorough else []):
-        n, complete = explore_dfs(batch, "all-states:" + name, conf, stateful=True, deadline=t0 + ctx.budget(55, 420))
+        n, complete = explore_dfs(batch, "all-states:" + name, conf, stateful=True, deadline=t0 + ctx.budget(62, 420))
         stateful_done[name] = dict(executions=n, complete=complete)
     ctx.log("state-exhaustive families: %s (%.1fs)" % (stateful_done, time.time() - t0))
-    for name, conf in bounded_configs()[:ctx.budget(1, 5)]:
+    bfams = bounded_configs()[:ctx.budget(1, 5)]
+    for i, (name, conf) in enumerate(bfams):
+        # every family gets its share of what is left of the time box, so that the later ones are not starved
+        now = time.time()
+        share = now + max(t0 + ctx.budget(66, 640) - now, 0) / (len(bfams) - i)
         n, complete = explore_dfs(batch, "preemption<=%d:%s" % (ctx.budget(2, 3), name), conf, bound=ctx.budget(2, 3),
-                                  max_runs=ctx.budget(3000, 28000), deadline=t0 + ctx.budget(60, 640))
+                                  max_runs=ctx.budget(3000, 28000), deadline=share)
         bounded[name] = dict(schedules=n, complete=complete, bound=ctx.budget(2, 3))
     ctx.log("preemption-bounded families: %s (%.1fs)" % (bounded, time.time() - t0))
     r = Rng(ctx.seed).fork("c12")
@@ -976,7 +980,7 @@ def correspondence(ctx):
         finally:
             run.close()
         done_rand += 1
-        if time.time() - t0 > ctx.budget(72, 740):
+        if time.time() - t0 > ctx.budget(78, 740):
             break
     batch.flush()
     ctx.log("random schedules: %d (%.1fs)" % (done_rand, time.time() - t_rand))
